@@ -9,6 +9,27 @@ BASELINE = ("cd /repo && /venv/bin/python -m pytest -ra -q -p no:cacheprovider -
 CL_NOTE = ('trusted base: the API-server model and the virtual-time scheduler of /verif/kopfsim (fidelity is an '
            'assumption, see DESIGN 2.2/8); only async handlers; schedules reachable by moving external events in time')
 
+# Extensions made after the texts above were written (kept as short additions to each check's description).
+ADDENDA = {
+    'C01': ' The bytes of the watch stream are cut into network reads in generated ways (a line in pieces, its newline in a read of its own).',
+    'C04': ' A handler field covering the status-based diff-base\'s own corner (status.kopf) is judged in the sub-domain where that is sound.',
+    'C06': ' Deletion handlers may do their work through sub-handlers: the finalizer stays until all of them finished.',
+    'C07': ' One family re-lists (compaction + broken streams) while a slow handler runs: a listed item is no echo of the patch.',
+    'C08': ' Results include falsy values (0, False, \'\').',
+    'C09': ' A pause may begin while an instance is in its stopping stages for another reason: the pausing operator has to go through them.',
+    'C10': ' Backoffs include an explicit 0.',
+    'C11': ' Backoffs include an explicit 0; a startup handler may have a sibling that needs more attempts.',
+    'C16': ' Several storage operations may accumulate in one patch before it is applied, as a handling cycle does (closing-cycle shape included).',
+    'C17': ' Index handlers may declare backoff=0.',
+    'C18': ' The patched object is compared JSON-type-strictly (true is not 1); pure type changes of existing values are generated.',
+    'C19': ' The stream bytes are cut into reads in generated ways; a kind named by a short name without a version has its CRD modified (short name lost/regained, a second version rolled out as preferred and back).',
+    'C20': ' One family limits the workers (worker_limit) with more busy objects than slots at the stop.',
+}
+
+def pid_of(c):
+    return next(k for k, v in CHECKS.items() if v is c)
+
+
 CHECKS = {
     'C01': dict(
         technique='property-based testing with harness-owned schedules: Hypothesis-generated event arrival times / processing durations '
@@ -262,7 +283,7 @@ def main():
             'evidence_file': f'evidence/{pid}.json',
             'replay_cmd_template': f'./check {pid} --replay {{path}}',
             'engine': c.get('engine', 'kopfsim'),
-            'level_claimed': {'category': c.get('category', 'exploration'), 'text': c['text'], 'design_ref': c['design_ref']},
+            'level_claimed': {'category': c.get('category', 'exploration'), 'text': c['text'] + ADDENDA.get(pid_of(c), ''), 'design_ref': c['design_ref']},
             'level_note': c.get('note', CL_NOTE),
             'technique': c['technique'],
         })
